@@ -131,6 +131,7 @@ impl Prop for C07 {
                 format!("(multi (on-press press-vkey vk0) (on-release release-vkey vk0))"),
                 format!("(hold-for-duration {t} vk0)"),
                 format!("(caps-word {t})"),
+                format!("(one-shot-pause-processing {t})"),
             ];
             let a1 = r.pick(&acts).clone();
             let a2 = r.pick(&acts).clone();
